@@ -41,7 +41,7 @@ def _twins(ctx, rep, names):
 # -------------------------------------------------------------------------------------------------------
 
 def _closed(ctx, rep, specs, floor):
-    cache = closed.cache_summary(ctx, rep, ctx.prog.func('nfa_algorithms._nfa_cache'))
+    cache = closed.cache_summary(ctx, rep, ctx.prog.func('nfa_algorithms._nfa_cache')) if any(sp.startswith('nfa_algorithms') for sp in specs) else None
     n = 0
     for sp in specs:
         n += closed.check_function(ctx, rep, ctx.prog.func(sp), cache)
@@ -99,6 +99,7 @@ def check_C02(ctx, rep):
     misc.check_tm_budget(ctx, rep, [P('tm_algorithms.tm_accepts_word'), P('tm_algorithms.tm_simulate_word'), P('tm_algorithms.tm_words_up_to_n')], P('tm_algorithms.tm_words_up_to_n'))
     state.check_config_reads(ctx, rep)
     _closed(ctx, rep, ['nfa_algorithms.nfa_words_up_to_n', 'pda_algorithms.pda_words_up_to_n'], 3)
+    _worklists_in(ctx, rep, ['nfa_algorithms.epsilon_closure', 'pda_algorithms.pda_epsilon_closure'])
     cyk.check_cnf_use(ctx, rep, P('cfg_algorithms.cfg_words_up_to_n'))
     state.check_hidden_state(ctx, rep, modules=['dfa_algorithms', 'nfa_algorithms', 'pda_algorithms', 'tm_algorithms', 'cfg_algorithms', 'regexp_algorithms', 'language_algorithms', 'language_generator'])
     _effect_on(ctx, rep, ENUMERATORS + ['regexp_algorithms.regexp_words_up_to_n', 'language_generator.generate_language', 'language_algorithms.words_of_length_n'], shared=False)
@@ -107,7 +108,7 @@ def check_C02(ctx, rep):
 def check_C03(ctx, rep):
     rep.clauses_decided += ['every subset is epsilon-closed before it is named, tested against F or enqueued (R-CLOSED iii)', 'subset worklist enqueues exactly the unseen subsets (R-WORK W1/W2)', 'operand NFA not mutated, no shared mutable state (R-EFFECT)']
     rep.not_decided += ['language equivalence for all words']
-    _worklists_in(ctx, rep, ['nfa_algorithms.nfa_to_dfa'])
+    _worklists_in(ctx, rep, ['nfa_algorithms.nfa_to_dfa', 'nfa_algorithms.epsilon_closure'])
     _effect_on(ctx, rep, ['nfa_algorithms.nfa_to_dfa'])
     effect.check_guarded_reads(ctx, rep, F(ctx, 'nfa_algorithms.nfa_to_dfa'))
     state.check_hidden_state(ctx, rep, modules=['nfa_algorithms'])
@@ -364,6 +365,7 @@ def check_C13(ctx, rep):
     if iorules.check_state_formats(ctx, rep, STATE_NAME_CHAINS) < 5:
         raise AnalysisError('fewer than 5 state-name chains decided')
     iorules.check_regexp_io(ctx, rep)
+    iorules.check_paren_independence(ctx, rep)
     iorules.check_cfg_io(ctx, rep)
     misc.check_minimiser_siblings(ctx, rep, F(ctx, 'dfa_algorithms.dfa_minimize', 'dfa_algorithms.dfa_quotient', 'dfa_algorithms.dfa_hopfcroft'))
     rep.extra['templates'] = len(ctx.prog.templates)
@@ -448,7 +450,7 @@ def check_C15(ctx, rep):
                             'the history alternates raw and closed sets; acceptance and steps on closed sets (R-CLOSED i/ii/iv)',
                             'right-hand sides are unpacked into two symbols only under a length-2 test (R-ARITY)']
     rep.not_decided += ['that each returned row is a legal move; leftmost/rightmost order of the derivation']
-    _worklists_in(ctx, rep, ['nfa_algorithms.nfa_find_epsilon_path', 'pda_algorithms.pda_find_epsilon_path'])
+    _worklists_in(ctx, rep, ['nfa_algorithms.nfa_find_epsilon_path', 'pda_algorithms.pda_find_epsilon_path', 'nfa_algorithms.epsilon_closure', 'pda_algorithms.pda_epsilon_closure'])
     work.check_worklists(ctx, rep, F(ctx, 'cfg_algorithms.cfg_derive_word', 'cfg_algorithms.cfg_derive_word.extract_derivation'))
     for sp in ('nfa_algorithms.nfa_find_epsilon_path', 'pda_algorithms.pda_find_epsilon_path'):
         work.check_marker_alias(ctx, rep, ctx.prog.func(sp))
@@ -539,13 +541,22 @@ _MODULES_OF = {
 }
 
 
+def _roots_of(ctx, rep):
+    by_short = {f.short: f for f in ctx.prog.functions.values()}
+    return [by_short[s] for s in sorted(rep.functions) if s in by_short and not by_short[s].module.name.startswith('template:')]
+
+
 def _with_hidden_state(pid, fn):
     def wrapped(ctx, rep):
         fn(ctx, rep)
-        mods = _MODULES_OF.get(pid)
-        if mods and not any(i.rule == 'R-STATE.c' for i in rep.instances) and 'hidden_state_inventory' not in rep.extra:
-            state.check_hidden_state(ctx, rep, modules=mods)
-            rep.clauses_decided.append('no cross-call memo (module-level container, memoising decorator, mutable default) feeds the operations of this property (R-STATE c)')
+        if pid != 'C19':
+            # hidden state is judged on the call-graph closure of the functions this property analysed
+            rep.instances = [i for i in rep.instances if not i.rule.startswith('R-STATE.c')]
+            rep.extra.pop('hidden_state_inventory', None)
+            roots = _roots_of(ctx, rep)
+            state.check_hidden_state(ctx, rep, roots=roots)
+            rep.extra['hidden_state_scope'] = len(state.reachable_functions(ctx, roots))
+            rep.clauses_decided.append('no cross-call memo (module-level container, memoising decorator, mutable default) is reachable from the operations of this property (R-STATE c on the call-graph closure)')
     return wrapped
 
 
